@@ -195,8 +195,11 @@ Eval(n, o) ==
                                        ps.v[CHOOSE i \in 1 .. Len(nd.ps) : ":" \o nd.ps[i].name \o ":" = k]]))
                      r == Resolve(Sv(nd.s), o2) IN
                  IF IsErr(r) THEN KeyNotFound(r.keys) ELSE Ok(Sv(StrToks(r)))
-      [] nd.k = "apply" ->
-            LET s == Eval(nd.src, o) IN IF ~s.ok THEN s ELSE Call(nd.f, <<s.v>>)
+      [] nd.k = "apply" ->     \* the source is produced first, then the step (and its parameter), then it is applied
+            LET s == Eval(nd.src, o) IN
+            IF ~s.ok THEN s
+            ELSE IF nd.fp = 0 THEN Call(nd.f, <<s.v>>)
+            ELSE LET p == Eval(nd.fp, o) IN IF ~p.ok THEN p ELSE Call(nd.f, <<s.v, p.v>>)
       [] nd.k = "bind" ->
             LET s == Eval(nd.src, o) IN
             IF ~s.ok THEN s
@@ -292,7 +295,7 @@ Validate(n, o) ==
                  LET bad == {p \in refs \ missing : IsErr(Resolve(Get(p, o), o))}
                      all == missing \cup UNION {Resolve(Get(p, o), o).keys : p \in bad} IN
                  IF all = {} THEN OkV ELSE KeyNotFound(all)
-      [] nd.k = "apply" -> Validate(nd.src, o)
+      [] nd.k = "apply" -> LET v == Validate(nd.src, o) IN IF ~v.ok \/ nd.fp = 0 THEN v ELSE Validate(nd.fp, o)
       [] nd.k = "bind" ->
             LET v == Validate(nd.src, o) IN
             IF ~v.ok THEN v
@@ -374,7 +377,7 @@ KeysOf(n, o) ==
                      all == missing \cup UNION {r.keys : r \in bad} IN
                  IF all # {} THEN KeyNotFound(all)
                  ELSE OkK(pk.ks \cup UNION {r.ks : r \in rs})
-      [] nd.k = "apply" -> KeysOf(nd.src, o)
+      [] nd.k = "apply" -> IF nd.fp = 0 THEN KeysOf(nd.src, o) ELSE UnionK(<<KeysOf(nd.src, o), KeysOf(nd.fp, o)>>)
       [] nd.k = "bind" ->
             LET ks == KeysOf(nd.src, o) IN
             IF ~ks.ok THEN ks
@@ -459,7 +462,7 @@ Explain(n, o) ==
                 pk == ExplainSeq([i \in 1 .. Len(nd.ps) |-> nd.ps[i].n], o) IN
             IF ~pk.ok THEN pk
             ELSE OkK(pk.ks \cup refs \cup UNION {IF Has(p, o) THEN RefsTrans(Get(p, o), o) ELSE {} : p \in refs})
-      [] nd.k = "apply" -> Explain(nd.src, o)
+      [] nd.k = "apply" -> IF nd.fp = 0 THEN Explain(nd.src, o) ELSE UnionK(<<Explain(nd.src, o), Explain(nd.fp, o)>>)
       [] nd.k = "bind" ->
             LET ks == Explain(nd.src, o) IN
             IF ~ks.ok THEN ks
@@ -555,7 +558,7 @@ Visit(n, o) ==
       [] nd.k = "opt" -> (IF Has(nd.p, o) THEN {} ELSE OptVisit(nd.d, o)) \cup OptVisit(nd.dom, o)
       [] nd.k = "pred" -> Visit(nd.arg, o)
       [] nd.k = "tmpl" -> VisitSeq([i \in 1 .. Len(nd.ps) |-> nd.ps[i].n], o)
-      [] nd.k = "apply" -> Visit(nd.src, o)
+      [] nd.k = "apply" -> Visit(nd.src, o) \cup (IF Eval(nd.src, o).ok THEN OptVisit(nd.fp, o) ELSE {})
       [] nd.k = "bind" ->
             LET s == Eval(nd.src, o) IN
             Visit(nd.src, o) \cup (IF ~s.ok THEN {}
@@ -647,7 +650,7 @@ Mentions(n) ==
       [] nd.k = "opt" -> {nd.p} \cup Opt(nd.d) \cup Opt(nd.dom)
       [] nd.k = "pred" -> Mentions(nd.arg)
       [] nd.k = "tmpl" -> RefsOf(nd.s) \cup UNION {Mentions(nd.ps[i].n) : i \in 1 .. Len(nd.ps)}
-      [] nd.k = "apply" -> Mentions(nd.src)
+      [] nd.k = "apply" -> Mentions(nd.src) \cup Opt(nd.fp)
       [] nd.k = "bind" -> Mentions(nd.src) \cup Opt(nd.other) \cup UNION {Mentions(nd.lk[i].n) : i \in 1 .. Len(nd.lk)}
       [] nd.k = "switch" -> Mentions(nd.d) \cup Opt(nd.dflt) \cup UNION {Mentions(nd.lk[i].n) : i \in 1 .. Len(nd.lk)}
       [] nd.k = "case" -> Mentions(nd.d) \cup Opt(nd.dflt) \cup
